@@ -17,6 +17,7 @@ import TraitsVerif.Lemmas.ObsMutate
 import TraitsVerif.Lemmas.ObsInv
 import TraitsVerif.Lemmas.ObsSource
 import TraitsVerif.Lemmas.NotifierSource
+import TraitsVerif.Lemmas.NodeSource
 namespace TraitsVerif.Props.C09
 open TraitsVerif TraitsVerif.Model.Obs
 
@@ -67,14 +68,30 @@ all graphs, rolled back on any exception) is `Model.Obs.applyObservers`: same ho
 theorem C09_apply_observers_is_source (h : Heap) (handler : Nat) (root : Id) (rm : Bool) (gs : List Graph)
     (H : Hooks) (hw : WF H) (n : Nat) (hn : needL gs ≤ n) :
     (run h Generated.observeProg (n + 1) (.fn "apply_observers"
-      [.obj (some root), .graphs (gs.map .plain), .handler handler, .disp, .bool rm]) (H, [])).1.1 =
-        (applyObservers h ⟨handler, root⟩ rm (some root) gs H).H ∧
+      [some (.obj (some root)), some (.graphs (gs.map .plain)), some (.handler handler), some .disp, some (.bool rm)])
+        (H, [])).1.1 = (applyObservers h ⟨handler, root⟩ rm (some root) gs H).H ∧
     (run h Generated.observeProg (n + 1) (.fn "apply_observers"
-      [.obj (some root), .graphs (gs.map .plain), .handler handler, .disp, .bool rm]) (H, [])).2 =
-        flowOf (applyObservers h ⟨handler, root⟩ rm (some root) gs H).err := by
-  rw [run_apply_observers h handler root rm gs H n hn]
+      [some (.obj (some root)), some (.graphs (gs.map .plain)), some (.handler handler), some .disp, some (.bool rm)])
+        (H, [])).2 = flowOf (applyObservers h ⟨handler, root⟩ rm (some root) gs H).err := by
+  rw [run_apply_observers h handler root rm gs H n hn _ rfl]
   have := finishA_eq_finish rm H _ (applyObserversW_did h ⟨handler, root⟩ rm (some root) gs H [] hw)
   exact ⟨this.1, by unfold applyObservers; rw [← this.2]; rfl⟩
+
+open TraitsVerif.Model.ObsL in
+/-- the DEFAULTS of the signatures are part of the translated term: `apply_observers(…)` with `remove` omitted (as
+`HasTraits.observe`'s caller `_init_trait_observers` does) registers (`remove=False`), and an outermost
+`add_or_remove_notifiers` is one with `_processed` omitted (`_processed=None`: it owns the undo log) —
+`C09_register_is_source` is stated with that argument omitted. -/
+theorem C09_defaults_are_source (h : Heap) (handler : Nat) (root : Id) (gs : List Graph)
+    (H : Hooks) (hw : WF H) (n : Nat) (hn : needL gs ≤ n) :
+    (run h Generated.observeProg (n + 1) (.fn "apply_observers"
+      [some (.obj (some root)), some (.graphs (gs.map .plain)), some (.handler handler), some .disp, none])
+        (H, [])).1.1 = (applyObservers h ⟨handler, root⟩ false (some root) gs H).H ∧
+    (Generated.observeProg.fns.lookup "add_or_remove_notifiers").map (·.defaults) =
+      some [none, none, none, none, none, none, some .noneLit] := by
+  refine ⟨?_, rfl⟩
+  rw [run_apply_observers h handler root false gs H n hn _ rfl]
+  exact (finishA_eq_finish false H _ (applyObserversW_did h ⟨handler, root⟩ false (some root) gs H [] hw)).1
 
 /-! #### the reference counting of the two notifier classes
 
@@ -523,5 +540,85 @@ example : ∀ o, AllDead { deadH := fun _ => true }
     ((addRemove exHeap f4Key false true exGraph (some 0) Hooks.empty).H.get o) := by
   intro o n _
   simp [Env.dead]
+
+/-! ### the IObserver node interface is the interpreted source (harness/translate/nodel.py, Model/NodeL.lean) -/
+
+section NodeInterface
+open TraitsVerif.Model TraitsVerif.Generated TraitsVerif.Lemmas
+
+/-- The IObserver interface of a graph node — `iter_observables`, `iter_objects`, `notify`,
+`iter_extra_graphs`, `get_notifier`, `get_maintainer` of NamedTraitObserver, ListItemObserver,
+DictItemObserver, SetItemObserver and FilteredTraitObserver (`NodeSource.classOf ob` selects the
+translated methods of the class of `ob`) — as modelled by `observables`, `objects`,
+`Observer.notify`, `extraObservables`, `NKey.user`, `NKey.maint ob.mkind` IS the NodeL
+interpretation of the source text (Generated/NodeProg.lean), for every heap, object, observer,
+graph, handler and target.  `iter_objects` of the filtered observer reads `__dict__` by name:
+the listed trait names must be distinct (`traits()` is a dict). -/
+theorem C09_node_interface_is_source (h : Heap) (ob : Observer) (x : W) (g c : Graph) (hd : Nat) (t : Id) :
+    observables h ob x
+      = NodeL.runIterObservables NodeProg.table h (NodeSource.classOf ob).iterObservables ob x ∧
+    (NodeSource.FieldsDistinct h x ∨ (∀ f nt, ob ≠ .filtered f nt) →
+      objects h ob x = NodeL.runIterObjects NodeProg.table h (NodeSource.classOf ob).iterObjects ob x) ∧
+    NodeL.selfField (.ob ob) .notify = .ok (.bool ob.notify) ∧
+    NodeL.runIterExtraGraphs NodeProg.table h (NodeSource.classOf ob).iterExtraGraphs ob g
+      = .ok (NodeSource.extrasOf ob g) ∧
+    (extraObservables h ob x =
+      match NodeSource.extraOptional ob with
+      | some opt => NodeSource.traitAddedObservables h opt x
+      | none => .ok []) ∧
+    NodeL.runGetNotifier NodeProg.table h (NodeSource.classOf ob).getNotifier ob hd (some t)
+      = .ok (.notifier (.user ⟨hd, t⟩) (NodeSource.eventFactoryOf ob) (NodeSource.preventUserOf ob)) ∧
+    NodeL.runGetMaintainer NodeProg.table h (NodeSource.classOf ob).getMaintainer ob c hd (some t)
+      = .ok (.notifier (.maint ob.mkind c ⟨hd, t⟩) (NodeSource.eventFactoryOf ob) (.constLam false)) :=
+  NodeSource.node_interface_is_source h ob x g c hd t
+
+/-- The trusted runtime of the `_observe.py` interpreter (Model/ObsL.lean `GV.*` on a compiled
+graph) is that interpretation: `GV.iterExtraGraphs` yields one `trait_added` graph exactly when
+the interpreted `iter_extra_graphs` yields one (its child is the graph itself), and
+`GV.getNotifier` / `GV.getMaintainer` build the keys of the interpreted constructors. -/
+theorem C09_node_runtime_is_source (h : Heap) (g c : Graph) (hd : Nat) (t : Id) :
+    (ObsL.GV.iterExtraGraphs (.plain g)).length
+      = (NodeSource.extrasOf g.ob g).length ∧
+    ObsL.hasExtra g.ob = (NodeSource.extraOptional g.ob).isSome ∧
+    (∀ e ∈ NodeSource.extrasOf g.ob g, NodeL.Extra.child e = g) ∧
+    (∀ k, ObsL.GV.getNotifier (.plain g) hd (some t) = some k →
+      ∃ ef pe, NodeL.runGetNotifier NodeProg.table h (NodeSource.classOf g.ob).getNotifier g.ob hd (some t)
+        = .ok (.notifier k ef pe)) ∧
+    (∀ k, ObsL.GV.getMaintainer (.plain g) (.plain c) hd (some t) = some k →
+      ∃ ef pe, NodeL.runGetMaintainer NodeProg.table h (NodeSource.classOf g.ob).getMaintainer g.ob c hd (some t)
+        = .ok (.notifier k ef pe)) := by
+  refine ⟨?_, ?_, ?_, ?_, ?_⟩
+  · cases hg : g.ob <;> simp [ObsL.GV.iterExtraGraphs, ObsL.hasExtra, NodeSource.extrasOf,
+      NodeSource.extraMatch, NodeSource.extraOptional, hg]
+  · cases g.ob <;> rfl
+  · intro e he
+    cases hg : g.ob <;> simp [NodeSource.extrasOf, NodeSource.extraMatch, NodeSource.extraOptional, hg] at he <;>
+      simp [he]
+  · intro k hk
+    simp [ObsL.GV.getNotifier] at hk
+    subst hk
+    exact ⟨_, _, NodeSource.get_notifier h g.ob hd t⟩
+  · intro k hk
+    simp [ObsL.GV.getMaintainer] at hk
+    subst hk
+    exact ⟨_, _, NodeSource.get_maintainer h g.ob c hd t⟩
+
+/-- `match_func` of the two extra graphs: `name == self.name`, resp. the filter. -/
+theorem C09_match_func_is_source (h : Heap) (n m : Name) (nt o : Bool) (f : Filter) (fl : Field) :
+    NodeL.applyMatch NodeProg.table h (.lam 1 2 (.eq (.var 1) (.selfF .name)) (.ob (.named n nt o))) m fl
+      = .ok (.bool (m == n)) ∧
+    NodeL.applyMatch NodeProg.table h (.listed f) m fl = .ok (.bool (f.matches fl)) :=
+  ⟨NodeSource.match_named h n nt o m fl, NodeSource.match_filtered h f m fl⟩
+
+/-- `__init__` of the five classes stores every argument in the slot of the same name. -/
+theorem C09_node_init_is_source :
+    NodeProg.namedInit = [(.name, "name"), (.notify, "notify"), (.optional, "optional")] ∧
+    NodeProg.listItemsInit = [(.notify, "notify"), (.optional, "optional")] ∧
+    NodeProg.dictItemsInit = [(.notify, "notify"), (.optional, "optional")] ∧
+    NodeProg.setItemsInit = [(.notify, "notify"), (.optional, "optional")] ∧
+    NodeProg.filteredInit = [(.notify, "notify"), (.filter, "filter")] :=
+  NodeSource.init_rows
+
+end NodeInterface
 
 end TraitsVerif.Props.C09
